@@ -62,6 +62,20 @@ def _arr_levels(p, arr_name):
     return out
 
 
+def _stepping_loop(p, ev):
+    """the index loop the solve of this path runs in: the last `for ... in range(...)` entered before the solve, whether
+    loop and solve sit in simulate itself, in a private stepping helper, or one in each"""
+    from ..values import RangeV
+
+    before = []
+    for e in p.events:
+        if e is ev:
+            break
+        if e.kind == "for_iter" and isinstance(e.data["iter"], RangeV):
+            before.append(e)
+    return before[-1:]
+
+
 def check_step(ctx, cls):
     it, f, parts = _step(ctx, cls)
     q = RES + cls + ".simulate"
@@ -89,8 +103,9 @@ def check_step(ctx, cls):
         # every step of the loop is taken: the loop runs over all len(time)-1 increments, never leaves early, and
         # nothing but the solve writes a level
         others = [e for e in p.events if e.kind == "store_sub" and e.data["base"] is arr and e not in stores and not (isinstance(e.data["index"], TupV) and isinstance(e.data["index"].items[0], Num) and not e.data["index"].items[0].nf)]
-        loops = [e for e in p.events if e.kind == "for_iter" and e.func == q]
         from ..values import RangeV
+
+        loops = _stepping_loop(p, ev)
 
         okloop = False
         exits = []
@@ -248,7 +263,7 @@ def check_all_steps_and_storage(ctx, rule_steps, rule_dtype):
             is_sol = lambda v: v is res or (isinstance(v, ExtObj) and v.qual.endswith("[0]") and v.args.get("of") is res)
             stores = [e for e in p.events if e.kind == "store_sub" and isinstance(e.data["base"], Arr2) and is_sol(e.data["value"])]
             arr = stores[0].data["base"] if stores else None
-            loops = [e for e in p.events if e.kind == "for_iter" and e.func == q]
+            loops = _stepping_loop(p, ev)
             others = [e for e in p.events if e.kind == "store_sub" and arr is not None and e.data["base"] is arr and e not in stores and not (isinstance(e.data["index"], TupV) and isinstance(e.data["index"].items[0], Num) and not e.data["index"].items[0].nf)]
             okloop, exits = False, []
             if len(loops) == 1 and isinstance(loops[0].data["iter"], RangeV):
@@ -266,6 +281,28 @@ def check_all_steps_and_storage(ctx, rule_steps, rule_dtype):
                 )
             if not rule_dtype:
                 continue
+            # np.full(shape, fill) without dtype takes the dtype of the fill value: when the fill is a raw input (a
+            # parameter or a configuration field, which a user may well give as an int) and the array is written to
+            # afterwards, the values written are cast to that dtype (a float schedule truncated to integers)
+            fields = set(ctx.P.cls(RES + cls).all_fields())
+            params = set(ctx.P.func(q).params)
+            for e in p.events:
+                if e.kind != "alloc_full" or (e.node, "f") in seen:
+                    continue
+                a = e.data["args"]
+                if "dtype" in a or a.get("fill_value") is None:
+                    continue
+                at = it.single_atom(it.to_nf(a["fill_value"]))
+                raw = at is not None and at[0] == "sym" and (at[1] in params or (at[1].startswith("self.") and at[1][5:] in fields))
+                res_v = e.data.get("result")
+                written = [s for s in p.events if s.kind == "store_sub" and s.data["base"] is res_v and s is not e]
+                if raw and written:
+                    seen.add((e.node, "f"))
+                    ctx.bad(
+                        rule_dtype, q + ":full dtype", f"{f.file}:{e.line}",
+                        "arrays allocated during the simulation are float64: they neither inherit the dtype of a caller's array or scalar nor narrow the values stored in them",
+                        signature="dtype of fill value " + at[1], fill=at[1], stores=[f"line {s.line}" for s in written[:3]],
+                    )
             for e in p.events:
                 if e.kind != "alloc" or (e.node, "d") in seen:
                     continue
